@@ -236,7 +236,8 @@ func leafValues(t *model.Tree, at string, out map[string]string) {
 	}
 	for n, l := range t.List {
 		for _, e := range l.Entries {
-			leafValues(e, at+"/"+n+"="+strings.Join(e.Key(), ","), out)
+			// (key parts are quoted: parts that hold commas must not make two entries one path)
+			leafValues(e, at+"/"+n+"="+fmt.Sprintf("%q", e.Key()), out)
 		}
 	}
 }
